@@ -543,3 +543,11 @@ package sio
 //@   ensures !wasconn ==> left == 0 && disc == 0 && discing == 0 && persisted == 0 [C06.sio.notconnected]
 //@   ensures wasconn && old(s.server.connectionStateRecovery.Enabled) && recov ==> persisted == 1 [C08.persist.when]
 //@   ensures persisted <= 1 && (persisted == 1 ==> recov && old(s.server.connectionStateRecovery.Enabled)) [C08.persist.only.recoverable]
+
+// The recovery window handed to the session-aware adapter is the configured one (the default only when none is set).
+//@ func NewServer
+//@   opt safety off
+//@   requires config != nil
+//@   callsite newNoopDebugger skip
+//@   callsite NewSessionAwareAdapterCreator
+//@     requires arg0 == (old(config.ServerConnectionStateRecovery.MaxDisconnectionDuration) == 0 ? DefaultMaxDisconnectionDuration : old(config.ServerConnectionStateRecovery.MaxDisconnectionDuration)) [C08.window.configured]
